@@ -1,6 +1,6 @@
 (* C16 -- render, import and extends compose like their documented expansions.
    Only statements, `exact`, and Print Assumptions live here. *)
-From Verif Require Import Bytes Facts_render Facts_escapers RendererM Renderer_proofs TCalcM TCalc_proofs TSrcM TSrc_proofs.
+From Verif Require Import Bytes Facts_render Facts_escapers RendererM Renderer_proofs TCalcM TCalc_proofs TSrcM TSrc_proofs TSrcImport_proofs.
 Open Scope N_scope.
 
 (* the render fast path of the emitter, as generated from the code *)
@@ -78,6 +78,53 @@ Theorem import_is_local_declaration :
      lower_nodes vals fs2 gen_mfast gen_rfast fuel sc2 params [SVarShow c (ECall alias name args)].
 Proof. intros vals. exact (import_is_local_declaration_thm vals gen_mfast gen_rfast). Qed.
 Print Assumptions import_is_local_declaration.
+
+(* (4), whole-file form: the macros of a file imported without alias and for
+   list (the first import of the root file F), declared at the end of F
+   instead, give the same compiled function for F.  Hypotheses: the imported
+   macros are made of texts and values, no macro of F refers to them, nothing
+   renders or imports F. *)
+Theorem import_is_local_declaration_whole_file :
+  forall vals fs F I f gI rest fuel,
+  get_file fs F = Some f -> f_imports f = mkImport I None None :: rest ->
+  get_file fs I = Some gI -> I <> F ->
+  (forall q g, get_file fs q = Some g -> q <> F -> file_avoids F g = true) ->
+  forallb (fun i => negb (i_path i =? F)) rest = true ->
+  forallb (node_avoids F) (f_body f) = true -> macros_avoid F (f_macros f) = true ->
+  forallb (fun m => forallb simple_node (m_body m)) (f_macros gI) = true ->
+  forallb (fun m => negb (captured f (m_name m))) (f_macros gI) = true ->
+  let f2 := mkFile (f_fmt f) (f_extends f) rest (f_macros f ++ f_macros gI) (f_rec f) (f_body f) in
+  lower_plain vals fs gen_mfast gen_rfast fuel F = lower_plain vals (set_file fs F f2) gen_mfast gen_rfast fuel F.
+Proof. intros vals. exact (import_inline_whole_file vals gen_mfast gen_rfast). Qed.
+Print Assumptions import_is_local_declaration_whole_file.
+
+(* (3), documented form: the file p that extends the layout l is built as the
+   layout with the macros of p declared at its end (same hypotheses on the
+   macros of p) *)
+Theorem extends_is_layout_with_local_macros :
+  forall vals fs fuel p l f lf fs',
+  get_file fs p = Some f -> f_extends f = Some l ->
+  get_file fs l = Some lf -> f_extends lf = None -> f_body f = [] ->
+  swap_extends fs p l = Some fs' ->
+  (forall q g, get_file fs' q = Some g -> q <> l -> file_avoids l g = true) ->
+  forallb (fun i => negb (i_path i =? l)) (f_imports lf) = true ->
+  forallb (node_avoids l) (f_body lf) = true -> macros_avoid l (f_macros lf) = true ->
+  forallb (fun m => forallb simple_node (m_body m)) (f_macros f) = true ->
+  forallb (fun m => negb (captured lf (m_name m))) (f_macros f) = true ->
+  let layout := mkFile (f_fmt lf) None (f_imports lf) (f_macros lf ++ f_macros f) (f_rec lf) (f_body lf) in
+  lower_main vals gen_mfast gen_rfast fs fuel p = lower_plain vals (set_file fs' l layout) gen_mfast gen_rfast fuel l.
+Proof. intros vals. exact (extends_as_local_macros vals gen_mfast gen_rfast). Qed.
+Print Assumptions extends_is_layout_with_local_macros.
+
+Example import_whole_file_example :
+  let imp := mkFile 1 None [] [mkMacro 7 1 1 false [SText [60; 109; 62] false false; SShow 1 (EParam 0)]] false [] in
+  let root := mkFile 1 None [mkImport 2 None None] [mkMacro 8 1 0 false [SText [120] false false]] false
+                [SShow 1 (ECall None 7 [AVal 0]); SVarShow 1 (ECall None 8 [])] in
+  let fs := [(1, root); (2, imp)] in
+  let root2 := mkFile 1 None [] (f_macros root ++ f_macros imp) false (f_body root) in
+  lower_plain demo_vals fs gen_mfast gen_rfast 6 1 = lower_plain demo_vals (set_file fs 1 root2) gen_mfast gen_rfast 6 1
+  /\ lower_plain demo_vals fs gen_mfast gen_rfast 6 1 <> None.
+Proof. exact import_inline_example. Qed.
 
 (* T1 obligations: the generated fast path tables are the format condition *)
 Theorem fastpath_tables_hold :
